@@ -41,7 +41,7 @@ def correspondence(ctx, thorough, search):
                    "replay_cmd": "evaluate the printed history on walrus::Module's collection kind %s" % v.get("kind")})
     cov = {
         "evaluations": meta["cases"], "distinct_nontrivial": meta["distinct_nontrivial"],
-        "rule": "histories over {add, delete, get, iter, len, find} on 9 real collections (types, exports, memories, functions, globals, tables, data, elements, imports): exhaustive up to length %d over a 2-item alphabet and ids 0..1, plus %d random histories of length <= 14 from the seeded PRNG; non-trivial = distinct history of >= 3 ops containing a delete" % (meta["exhaustive_len"], meta["random_cases"]),
+        "rule": "histories over {add, delete, get, iter, len, find} on 10 real collections (types, exports, memories, functions, globals, tables, data, elements, imports, custom sections: raw and two typed kinds): exhaustive up to length %d over a 2-item alphabet and ids 0..1, plus %d random histories of length <= 14 from the seeded PRNG; non-trivial = distinct history of >= 3 ops containing a delete" % (meta["exhaustive_len"], meta["random_cases"]),
         "samples": meta["samples"], "traces_validated_against_impl": n_eval,
         "input_distribution": {k: meta[k] for k in ("per_kind", "op_histogram", "panics_observed", "dedup_hits", "steps", "exhaustive_cases", "random_cases")},
         "exhaustive": False,
